@@ -419,6 +419,15 @@ class Case:
             self._visiting.discard(q)
             self._pctx.pop()
 
+    def _frame(self, caller, call, kind, g, depth):
+        """case of each actual argument of `call`, for the callee's parameters"""
+        frame = {}
+        for pn in g.params:
+            a = self.ctx.e._actual(call, kind, g, pn)
+            if a is not None:
+                frame[pn] = self.of(caller, a, call, depth + 1)
+        return frame
+
     # ---------------------------------------------------------------- fields
     def _related(self, a, b):
         """Do class sets a and b share a class or an inheritance line?"""
@@ -591,11 +600,13 @@ class Case:
                         continue
                     g = ctx.m.funcs[t]
                     self._visiting.add(t)
+                    self._pctx.append((t, self._frame(f, e, k_, g, depth)))
                     try:
                         for rt in (n for n in ctx.m.walk_own(g.node) if isinstance(n, ast.Return) and n.value is not None):
                             r = join(r, self.container(g, rt.value, rt, which, depth + 1))
                     finally:
                         self._visiting.discard(t)
+                        self._pctx.pop()
                 return r if r is not None else UNKNOWN
             if isinstance(e.func, ast.Attribute) and e.func.attr in ("split", "rsplit", "findall", "splitlines"):
                 if e.func.attr == "split" and e.args and (ctx.p.fregex_ref(f.rel, e.func.value) or ctx.r.expr_builtin(f, e.func.value) == "pattern"):
@@ -623,11 +634,13 @@ class Case:
                         continue
                     g = ctx.m.funcs[t]
                     self._visiting.add(t)
+                    self._pctx.append((t, self._frame(f, value, k_, g, depth)))
                     try:
                         for rt in (n for n in ctx.m.walk_own(g.node) if isinstance(n, ast.Return) and isinstance(n.value, ast.Tuple) and i < len(n.value.elts)):
                             r = join(r, self.container(g, rt.value.elts[i], rt, which, depth + 1))
                     finally:
                         self._visiting.discard(t)
+                        self._pctx.pop()
                 return r if r is not None else UNKNOWN
         return UNKNOWN
 
